@@ -24,6 +24,11 @@ ASSUMPTIONS = ['mc/refgeom.arc_center_params is the reading of F.6.5/F.6.6',
 
 DIRS = [0, 45, 90, 135, 180, 225, 270, 315, 17, 200]
 DISTS = [2.0, 37.5]
+# thorough tier: finer directions, more chord lengths (incl. tiny / huge), more rotations, far-away start points
+DIRS_T = sorted(set(DIRS + list(range(0, 360, 15)) + [1, 89.999, 90.001, 179.5, 271, 359.9]))
+DISTS_T = [2.0, 37.5, 1e-3, 0.7, 4.0e4]
+ROTS_T = [0, 90, 180, 270, 30, -45, 123.4, 400, -725, 1e-3, 89.99, 45, 60, -90, 360, 179.999]
+STARTS_T = [1.25 - 0.5j, 0j, -3.0e5 + 2.0e5j]
 RADII = [(0.3, 0.3), (1.0, 1.0), (1.0 + 1e-12, 1.0 + 1e-12), (1.0 - 1e-12, 1.0), (1.0 + 1e-7, 1.0 + 1e-7),
          (1.0 + 1e-4, 1.0 + 1e-4), (1.5, 1.5), (10.0, 10.0), (3.0, 1.0), (1.0, 3.0), (100.0, 1.0), (-2.0, -1.5), (1.5, 0.4),
          (1e-80, 2e-80), (1e-140, 1e-140), (1e-9, 1e-9)]
@@ -33,14 +38,21 @@ TS = [0.0, 2.0 ** -52, 0.125, 0.25, 1.0 / 3.0, 0.5, 0.7, 0.875, 1.0 - 2.0 ** -53
 
 
 def grid(tier):
-    dirs = DIRS if tier == 'thorough' else DIRS[:8]
-    for d, dist, r, rot, fl in itertools.product(dirs, DISTS, RADII, ROTS, FLAGS):
+    if tier != 'thorough':
+        for d, dist, r, rot, fl in itertools.product(DIRS[:8], DISTS, RADII, ROTS, FLAGS):
+            yield d, dist, r, rot, fl
+        return
+    for d, dist, r, rot, fl in itertools.product(DIRS_T, DISTS_T, RADII, ROTS_T, FLAGS):
         yield d, dist, r, rot, fl
+    # far-away / origin start points on the quick-tier alphabet
+    for si in (1, 2):
+        for d, dist, r, rot, fl in itertools.product(DIRS, DISTS, RADII, ROTS, FLAGS):
+            yield d, dist, r, rot, fl, si
 
 
 def spec_of(g):
-    d, dist, r, rot, fl = g
-    start = 1.25 - 0.5j
+    d, dist, r, rot, fl = g[:5]
+    start = STARTS_T[g[5]] if len(g) > 5 else 1.25 - 0.5j
     end = start + dist * complex(math.cos(math.radians(d)), math.sin(math.radians(d)))
     if d % 90 == 0:
         end = start + dist * [1, 1j, -1, -1j][(d // 90) % 4]
@@ -63,14 +75,19 @@ def center_grid(tier):
     th1s = [10.0, 100.0, 200.0, -30.0, 0.0, 90.0]
     spans = [40.0, 130.0, 200.0, 300.0, 350.0, 90.0, 180.0 - 1e-1, 180.0 - 1e-2, 180.0 - 1e-3, 180.0 - 1e-5, 180.0 + 1e-3, 180.0 + 1e-2, 180.0 + 1e-1,
              359.0, 1.0, 1e-3]
+    if tier == 'thorough':
+        radii += [(1.0, 1.0), (1.0, 1.0 + 1e-9), (2.5e4, 1.0e4), (1e-4, 3e-4)]
+        phis += [1e-3, 45, 60, 89.99, 179.999]
+        th1s += [45.0, 180.0, 270.0, 359.5, -179.0, 1e-3]
+        spans += [1e-6, 10.0, 89.9999, 90.0001, 179.0, 181.0, 270.0, 359.99, 359.9999]
     for (rx, ry), phi, th1, sp, sgn in itertools.product(radii, phis, th1s, spans, (1, -1)):
         yield ('center', rx, ry, phi, th1, sgn * sp)
 
 
 def near_grid(tier):
     """start and end distinct but extremely close compared with the radii"""
-    for delta in (1e-6, 1e-8, 1e-10):
-        for ang in (0.0, 70.0, 200.0):
+    for delta in ((1e-6, 1e-8, 1e-10) if tier != 'thorough' else (1e-5, 1e-6, 1e-7, 1e-8, 1e-9, 1e-10)):
+        for ang in ((0.0, 70.0, 200.0) if tier != 'thorough' else (0.0, 70.0, 200.0, 90.0, 135.0, 300.0)):
             for radius in ((3.0, 1.0), (2.0, 2.0)):
                 for rot in (0, 10, 90):
                     for fl in FLAGS:
@@ -105,7 +122,7 @@ def check_arc(g, acc):
         case = {'grid': list(g)}
     else:
         spec = spec_of(g)
-        case = {'grid': [g[0], g[1], list(g[2]), g[3], list(g[4])]}
+        case = {'grid': [g[0], g[1], list(g[2]), g[3], list(g[4])] + list(g[5:])}
     start, radius, rot, la, sw, end = spec
     ref = refgeom.arc_center_params(*spec)
     lam = ref['lambda']
@@ -132,7 +149,9 @@ def check_arc(g, acc):
             acc.violation('radii_off_at_exact_fit', sig, case, observed=a.radius, expected=[rx0, ry0])
     # end points
     p0, p1 = a.point(0), a.point(1)
-    if not (abs(p0 - start) <= 1e-12 * size and abs(p1 - end) <= 1e-12 * size):
+    # far from the origin a coordinate cannot be resolved better than its own spacing: 4 ulp of the position
+    etol = 1e-12 * size + 4 * 2.0 ** -52 * max(abs(start), abs(end))
+    if not (abs(p0 - start) <= etol and abs(p1 - end) <= etol):
         acc.violation('endpoints_off', sig, case, observed=[p0, p1], expected=[start, end],
                       detail='errors %g %g (size %g)' % (abs(p0 - start), abs(p1 - end), size))
     # centre against the reference (the two candidate centres are a chord-mirror apart, so a loose
@@ -229,8 +248,9 @@ def expected_classes(tier):
 
 
 def space(tier, seed):
-    return {'directions': DIRS if tier == 'thorough' else DIRS[:8], 'chord_lengths': DISTS, 'radii_relative_to_half_chord': RADII,
-            'rotations': ROTS, 'flags': FLAGS, 't_grid': TS, 'derivative_orders': [1, 2, 3, 4, 5], 'arcs': len(list(grid(tier))),
+    th = tier == 'thorough'
+    return {'directions': DIRS_T if th else DIRS[:8], 'chord_lengths': DISTS_T if th else DISTS, 'radii_relative_to_half_chord': RADII,
+            'rotations': ROTS_T if th else ROTS, 'start_points': STARTS_T if th else [STARTS_T[0]], 'flags': FLAGS, 't_grid': TS, 'derivative_orders': [1, 2, 3, 4, 5], 'arcs': len(list(grid(tier))),
             'centre_built_arcs (radii x rotation x start angle x span incl. 180 +- tiny)': len(list(center_grid(tier)))}
 
 
@@ -242,5 +262,5 @@ def replay(case):
     elif g[0] == 'center':
         check_arc(tuple(g), acc)
     else:
-        check_arc((g[0], g[1], tuple(g[2]), g[3], tuple(g[4])), acc)
+        check_arc((g[0], g[1], tuple(g[2]), g[3], tuple(g[4])) + tuple(g[5:]), acc)
     return acc.vlist
